@@ -175,7 +175,7 @@ class Rewriter:
             new = ast.Lambda(args=self.arguments(e.args, comp),
                              body=_call('lam', _c(fid), ast.Lambda(args=ast.arguments(posonlyargs=[], args=[], vararg=None, kwonlyargs=[],
                                                                                       kw_defaults=[], kwarg=None, defaults=[]),
-                                                                   body=self.expr(e.body, ()))))
+                                                                   body=self.expr(e.body, comp))))
             return ast.copy_location(new, e)
         if isinstance(e, (ast.ListComp, ast.SetComp, ast.GeneratorExp, ast.DictComp)):
             tg = set(comp)
@@ -261,7 +261,7 @@ class Rewriter:
             if s.exc is not None:
                 s.exc = _call('mark', self.expr(s.exc))
             s.cause = self.expr(s.cause)
-            return [node_ev, s]
+            return [self.ev('rnode', _c(sid)), s]
         if isinstance(s, ast.Assert):
             s.test = self.expr(s.test)
             s.msg = self.expr(s.msg)
@@ -334,7 +334,6 @@ class Rewriter:
     def function(self, f):
         """rewrite the body of FunctionDef f in place"""
         fid = self.nid(f)
-        decls = [s for s in f.body if isinstance(s, (ast.Global, ast.Nonlocal))]
         a, e = '__mv_a', '__mv_e'
         body = self.block(f.body)
         wrapped = ast.Try(
@@ -343,14 +342,13 @@ class Rewriter:
                                         body=[self.ev('exc', ast.Name(id=a, ctx=ast.Load()), ast.Name(id=e, ctx=ast.Load())), ast.Raise(exc=None, cause=None)])],
             orelse=[], finalbody=[self.ev('leave', ast.Name(id=a, ctx=ast.Load()))])
         f.body = [ast.Assign(targets=[ast.Name(id=a, ctx=ast.Store())], value=_call('enter', _c(fid)), type_comment=None), wrapped]
-        del decls
 
 
 # ---------------------------------------------------------------------------------------------
 # runtime
 # ---------------------------------------------------------------------------------------------
 class Act:
-    __slots__ = ('fid', 'aid', 'steps', 'last', 'bound', 'reads', 'entries', 'live_obs', 'ended', 'exc', 'implicit')
+    __slots__ = ('fid', 'aid', 'steps', 'last', 'bound', 'reads', 'entries', 'live_obs', 'ended', 'exc', 'implicit', 'raise_step', 'cut')
 
     def __init__(self, fid, aid):
         self.fid, self.aid = fid, aid
@@ -363,6 +361,8 @@ class Act:
         self.ended = False
         self.exc = None
         self.implicit = False
+        self.raise_step = None   # index of the step of the explicit raise whose exception is propagating
+        self.cut = None          # number of leading steps that precede any propagation through a `finally` body
 
 
 class Tracer:
@@ -427,11 +427,26 @@ class Tracer:
         if self.stack:
             self.stack.pop()
 
+    def _propagation_ends(self, a):
+        """the exception raised at a.raise_step is caught / leaves the function: if statements ran in between, they were
+        `finally` bodies executed during propagation — a route the CFG does not contain and the properties set aside"""
+        if a.raise_step is not None:
+            if len(a.steps) - 1 > a.raise_step and a.cut is None:
+                a.cut = a.raise_step + 1
+            a.raise_step = None
+
     def exc(self, a, e):
         a.exc = type(e).__name__
+        self._propagation_ends(a)
         if getattr(e, '_mv_explicit', None) != a.aid:
             a.implicit = True
             self.implicit = True
+
+    def rnode(self, nid):
+        self.node(nid)
+        a = self.stack[-1]
+        if a.raise_step is None:
+            a.raise_step = len(a.steps) - 1
 
     def mark(self, e):
         if isinstance(e, type):
@@ -445,6 +460,7 @@ class Tracer:
     def handler(self, hid):
         import sys
         e = sys.exc_info()[1]
+        self._propagation_ends(self.stack[-1])
         if getattr(e, '_mv_explicit', None) != self.stack[-1].aid:
             self.stack[-1].implicit = True
             self.implicit = True
@@ -493,8 +509,6 @@ class Tracer:
         st = self._cur(a)
         if st is not None:
             lw = a.last.get(name)
-            if name in st['touched'] and lw is not None and lw[1] == len(a.steps) - 1 and lw[0] == 'direct':
-                pass   # read of a value this very node produced (not generated: walrus is rejected) — no observation
             a.reads.append((len(a.steps) - 1, name_id, name, lw, ident == a.aid, ident))
             self._read(a, name, None, name_id)
         if ident is not None:
